@@ -25,7 +25,7 @@ CHECKS = {
    text="Seeded simulation of 1-3 sending tunnel gateways and one receiver over a datagram network with per-packet loss, duplication, reordering (indexed systematically for <= 6 packets in flight, sampled beyond), would-blocks and sender restarts, MTU 17..9000, both tunnel types, zlib levels 0-9, with and without a slave gateway; every delivered Message must be byte-identical to a sent one of that source (a splice analysis names the two Messages otherwise), and fault-free runs must deliver exactly the sent sequences. Exploration.",
    note="Trusts: the simulated datagram network; message-id wrap-around is produced by rebasing the ids in every fragment header on the simulated wire; sender_restart remains (the resulting splice is known finding F10); 1 run in 12 carries the tunnel over PacketizedProxyDataIO on a chunked reliable byte stream instead; more than a few concurrent sources (the receiver's 256-entry LRU table) are outside the property's quantifier; a zlib-compressing slave gateway (documented FIFO-only) is not used.", technique="deterministic simulation with fault injection: lossy/duplicating/reordering datagram network, membership and sequence oracles"),
  "C18": dict(engine="thrsim", section="3 (C18)",
-   text="Seeded schedules (random walk, PCT, round-robin; low-preemption schedules over-sampled) of 2-4 real threads on one real ReaderWriterMutex with timeouts firing at any legal instant; shadow-table exclusion invariant at every hook, recursion/upgrade accounting, writer preference, deadline discipline of timed/try calls, deadlock and livelock detection. Exploration.",
+   text="Seeded schedules (random walk, PCT, round-robin; low-preemption schedules over-sampled) of 2-4 real threads (8-12 in crowd runs, where acquires may also fail for lack of memory: allocation-failure fault) on one real ReaderWriterMutex with timeouts firing at any legal instant; shadow-table exclusion invariant at every hook, recursion/upgrade accounting, writer preference, deadline discipline of timed/try calls, deadlock and livelock detection. Exploration.",
    note=THRNOTE, technique="deterministic simulation: controlled scheduler over real threads, shadow lock table invariant + deadlock detector"),
  "C19": dict(engine="thrsim", section="3 (C19)",
    text="Seeded schedules of submitters, pool threads, unregister/re-register and pool shutdown (also with handlers running and Messages outstanding) on a real ThreadPool; exactly-once, per-client order, per-client seriality, thread limit, unregister-waits and shutdown-returns oracles. Exploration.",
@@ -34,7 +34,7 @@ CHECKS = {
    text="Seeded histories on trees of instrumented PulseNodes under 1-3 manager roots driven through the ReflectServer protocol under a simulated clock (attach/detach/re-parent/destroy, requested times past/now/future/never/ties, invalidation from outside and from inside callbacks, early/exact/late wake-ups, clock jumps); root time == minimum, exactly the due nodes pulsed once with their own scheduled time, re-query discipline, with the one documented deferral relaxation for branches displaced by in-callback operations. Exploration.",
    note="Trusts: the simulated clock (+1us per read); the first oracle's harness manager mirrors ReflectServer's use of CallGetPulseTimeAux/CallPulseAux, the second oracle (30% of the budget, worker property C20S) steps the real ReflectServer event loop with instrumented sessions and I/O policies; the order of simultaneously due callbacks is not checked; known finding F31 (a too-early wake-up after a later answer within one recalculation) is reported as such.", technique="deterministic discrete-event simulation: simulated clock driving real PulseNode trees, shadow-model oracle"),
  "C04": dict(engine="netsim/server", section="3 (C04)",
-   text="Seeded multi-client histories against the real ReflectServer (stepped one event-loop iteration at a time under simulated select/clock/transport) with segmentation, slow-reader, stall, cut, reset and clock-jump faults; the subscriber-mark invariant is evaluated after every processed command and every client's mirror is compared with the real tree at every forced quiescent point (bounded-step liveness). Exploration over the seeds run.",
+   text="Seeded multi-client histories against the real ReflectServer (stepped one event-loop iteration at a time under simulated select/clock/transport) with segmentation, slow-reader, stall, slow-link (backlog outlasting the transport's output stall limit), cut, reset and clock-jump faults; the subscriber-mark invariant is evaluated after every processed command and every client's mirror is compared with the real tree at every forced quiescent point (bounded-step liveness). Exploration over the seeds run.",
    note=SRVNOTE, technique="deterministic simulation with fault injection: real server + simulated clients, reference evaluation at linearisation points, mirror/mark oracles at quiescence"),
  "C05": dict(engine="netsim/server", section="3 (C05)",
    text="Same harness; routed Messages with conservative and full-syntax keys, filters, default routes, !Self, forged sender ids; the expected recipient set is computed at the instant the server processes each Message (muscle's MatchesPath over every node = the property's brute-force clause, plus an independent matcher) and compared with actual deliveries (exactly once, order, identity) at quiescence. Exploration.",
